@@ -211,12 +211,13 @@ where
         Ok(())
     }
 
+    /// Returns `Ok(false)` when the server has closed the connection gracefully.
     async fn handle_packet(
         tx: &mut TxPacketStream<TxStreamT>,
         connection: &mut Connection,
         session: &mut Session,
         packet: RxPacket,
-    ) -> Result<(), MqttError> {
+    ) -> Result<bool, MqttError> {
         match packet {
             RxPacket::Publish(publish) => {
                 let qos = publish.qos;
@@ -277,7 +278,7 @@ where
             }
             RxPacket::Disconnect(disconnect) => {
                 if disconnect.reason == DisconnectReason::Success {
-                    return Ok(()); // Graceful disconnection.
+                    return Ok(false); // Graceful disconnection.
                 }
 
                 return Err(disconnect.into());
@@ -353,7 +354,7 @@ where
             }
         }
 
-        Ok(())
+        Ok(true)
     }
 
     fn handle_connack(connection: &mut Connection, connack: &ConnackRx) {
@@ -599,7 +600,9 @@ where
             futures::select! {
                 maybe_rx_packet = pck_fut => {
                     let rx_packet = maybe_rx_packet.ok_or(SocketClosed)?;
-                    Self::handle_packet(tx, connection, session, rx_packet?).await?;
+                    if !Self::handle_packet(tx, connection, session, rx_packet?).await? {
+                        return Ok(());
+                    }
                     #[cfg(feature = "verif")]
                     Self::verif_snapshot(connection, session);
                     pck_fut = rx.next().fuse();
